@@ -156,6 +156,36 @@ def Section.pop (s : Section) (i : Int) : Except Err Section :=
   | some j => .ok { s with items := s.items.eraseIdx j }
   | none => .error .indexError
 
+/-! ### slices: `section[a:b:c]` returns a NEW `SectionItems` holding the items at the positions Python's list slicing selects
+(`SectionItems(list.__getitem__(self, key))`: no lasio code runs on the items, the section itself is not touched) -/
+
+/-- one bound of `slice.indices(len)` (CPython `PySlice_AdjustIndices`) -/
+def sliceBound (len : Nat) (stepNeg : Bool) (dflt : Int) : Option Int → Int
+  | none => dflt
+  | some v =>
+    if v < 0 then
+      (if v + len < 0 then (if stepNeg then -1 else 0) else v + len)
+    else if v ≥ len then (if stepNeg then (len : Int) - 1 else len)
+    else v
+
+/-- the positions `range(*slice(start, stop, step).indices(len))`; `step = 0` is a `ValueError` in Python (`none`) -/
+def pySlice (len : Nat) (start stop : Option Int) (step : Int) : Option (List Nat) :=
+  if step == 0 then none
+  else if step > 0 then
+    let a := sliceBound len false 0 start
+    let b := sliceBound len false len stop
+    let n := if a < b then ((b - a - 1) / step + 1).toNat else 0
+    some ((List.range n).map fun (k : Nat) => (a + (k : Int) * step).toNat)
+  else
+    let a := sliceBound len true ((len : Int) - 1) start
+    let b := sliceBound len true (-1) stop
+    let n := if b < a then ((a - b - 1) / (-step) + 1).toNat else 0
+    some ((List.range n).map fun (k : Nat) => (a + (k : Int) * step).toNat)
+
+/-- `section[start:stop:step]`: the positions of the items of the returned list -/
+def Section.getSlice (s : Section) (start stop : Option Int) (step : Int) : Option (List Nat) :=
+  pySlice s.items.length start stop step
+
 /-- the edit operations of C13/C15 on one section; a failing operation (KeyError/IndexError) leaves the section unchanged -/
 inductive Op where
   | append (o u v d : Str)
